@@ -131,6 +131,29 @@ func (p *Pkg) pkgVar(name string) (*types.Var, ast.Expr) {
 func (p *Pkg) orderTable() (v *types.Var, groups [][]string, lit ast.Expr, err error) {
 	var found []*types.Var
 	var inits []ast.Expr
+	// a package-level slice or array of string slices (or arrays)
+	isStrSeq := func(t types.Type) bool {
+		var el types.Type
+		switch u := t.Underlying().(type) {
+		case *types.Slice:
+			el = u.Elem()
+		case *types.Array:
+			el = u.Elem()
+		default:
+			return false
+		}
+		b, ok := el.Underlying().(*types.Basic)
+		return ok && b.Kind() == types.String
+	}
+	isTable := func(t types.Type) bool {
+		switch u := t.Underlying().(type) {
+		case *types.Slice:
+			return isStrSeq(u.Elem())
+		case *types.Array:
+			return isStrSeq(u.Elem())
+		}
+		return false
+	}
 	for _, f := range p.P.Syntax {
 		for _, d := range f.Decls {
 			gd, ok := d.(*ast.GenDecl)
@@ -144,7 +167,7 @@ func (p *Pkg) orderTable() (v *types.Var, groups [][]string, lit ast.Expr, err e
 					if o == nil {
 						continue
 					}
-					if o.Type().String() == "[][]string" {
+					if isTable(o.Type()) {
 						found = append(found, o)
 						if i < len(vs.Values) {
 							inits = append(inits, vs.Values[i])
@@ -160,28 +183,33 @@ func (p *Pkg) orderTable() (v *types.Var, groups [][]string, lit ast.Expr, err e
 		return nil, nil, nil, nil
 	}
 	if len(found) > 1 {
-		return nil, nil, nil, fmt.Errorf("several [][]string tables")
+		return nil, nil, nil, fmt.Errorf("several tables of string lists")
 	}
-	cl, ok := inits[0].(*ast.CompositeLit)
-	if !ok {
+	if inits[0] == nil {
+		return found[0], nil, nil, fmt.Errorf("order table has no initialiser")
+	}
+	if _, ok := inits[0].(*ast.CompositeLit); !ok {
 		return found[0], nil, inits[0], fmt.Errorf("order table is not a composite literal")
 	}
-	for _, g := range cl.Elts {
-		gl, ok := g.(*ast.CompositeLit)
-		if !ok {
-			return found[0], nil, cl, fmt.Errorf("order group is not a literal")
+	// positional or keyed elements, constants only: the literal's value
+	lv, ok := p.listValue(inits[0])
+	if !ok || lv.K != VList {
+		return found[0], nil, inits[0], fmt.Errorf("non-constant entry in order table")
+	}
+	for _, g := range lv.T {
+		if g.K != VList {
+			return found[0], nil, inits[0], fmt.Errorf("order group is not a literal")
 		}
 		var row []string
-		for _, e := range gl.Elts {
-			s, ok := constString(p.Info, e)
-			if !ok {
-				return found[0], nil, cl, fmt.Errorf("non-constant entry in order table")
+		for _, e := range g.T {
+			if e.K != VStr {
+				return found[0], nil, inits[0], fmt.Errorf("non-constant entry in order table")
 			}
-			row = append(row, s)
+			row = append(row, e.S)
 		}
 		groups = append(groups, row)
 	}
-	return found[0], groups, cl, nil
+	return found[0], groups, inits[0], nil
 }
 
 // ---------------------------------------------------------------------------
